@@ -460,6 +460,60 @@ Proof.
   destruct Hk as [H1 _]. unfold contents. congruence.
 Qed.
 
+(* revival in any order: the hashed log may be walked in any order (and the
+   log it was made from was built by ranging over a Go map); the revived log
+   is the same up to order, hence has the same effect *)
+Definition hentry_entry (new : kvmap) (h : hentry) : option entry :=
+  match h with
+  | (k, false) => Some (k, None)
+  | (k, true) => match get k new with Some v => Some (k, Some v) | None => None end
+  end.
+
+Lemma revive_cons new h r :
+  revive new (h :: r) =
+  match hentry_entry new h, revive new r with
+  | Some e, Some wl => Some (e :: wl)
+  | _, _ => None
+  end.
+Proof.
+  destruct h as [k [|]]; cbn [revive hentry_entry].
+  - destruct (get k new); [|reflexivity]. destruct (revive new r); reflexivity.
+  - destruct (revive new r); reflexivity.
+Qed.
+
+Lemma revive_perm_lem new hl hl' :
+  Permutation hl hl' -> forall wl, revive new hl = Some wl ->
+  exists wl', revive new hl' = Some wl' /\ Permutation wl wl'.
+Proof.
+  induction 1 as [|x l l' Hp IH|x y l|l1 l2 l3 H12 IH12 H23 IH23]; intros wl Hr.
+  - exists wl. split; [exact Hr|apply Permutation_refl].
+  - rewrite revive_cons in Hr. rewrite revive_cons.
+    destruct (hentry_entry new x) as [e|]; [|discriminate].
+    destruct (revive new l) as [wl0|] eqn:E; [|discriminate]. injection Hr as <-.
+    destruct (IH wl0 eq_refl) as [wl0' [H1 H2]]. rewrite H1.
+    exists (e :: wl0'). split; [reflexivity|apply perm_skip; exact H2].
+  - rewrite !revive_cons in Hr. rewrite !revive_cons.
+    destruct (hentry_entry new y) as [ey|]; [|discriminate].
+    destruct (hentry_entry new x) as [ex|]; [|destruct (revive new l); discriminate].
+    destruct (revive new l) as [wl0|]; [|discriminate]. injection Hr as <-.
+    exists (ex :: ey :: wl0). split; [reflexivity|apply perm_swap].
+  - destruct (IH12 wl Hr) as [wl2 [H1 H2]]. destruct (IH23 wl2 H1) as [wl3 [H3 H4]].
+    exists wl3. split; [exact H3|eapply Permutation_trans; eassumption].
+Qed.
+
+Lemma revive_any_order_correct_lem old ops hl' :
+  sorted old ->
+  Permutation (make_hashed (commit_writelog (run_batch old ops))) hl' ->
+  exists wl', revive (contents (run_batch old ops)) hl' = Some wl' /\
+              Permutation (commit_writelog (run_batch old ops)) wl' /\
+              apply_writelog old wl' = contents (run_batch old ops).
+Proof.
+  intros Hs Hp.
+  destruct (revive_perm_lem _ _ _ Hp _ (revive_roundtrip_lem old ops)) as [wl' [H1 H2]].
+  exists wl'. repeat split; [exact H1|exact H2|].
+  apply served_log_any_order_lem; assumption.
+Qed.
+
 (* ---------- which corruptions change the result ---------- *)
 (* dropping an entry that has an effect on the old contents *)
 Lemma dropped_entry_differs_lem old wl1 e wl2 :
